@@ -314,22 +314,27 @@ class ScriptPoller(object):
         return [], []
 
 
+class MarkingSocketMap(object):
+    """What get_socket_map() returns: an empty mapping whose keys() is called
+    by `combined_map.update(socket_map)` at the top of every pass."""
+    def __init__(self, log):
+        self.log = log
+
+    def keys(self):
+        self.log.append(('top',))
+        return []
+
+    def __getitem__(self, k):
+        raise KeyError(k)
+
+
 class SupOptions(FakeOptions):
-    """`mood` is read at the top of every pass (and once more at its end): the
-    reads are logged so that notifications can be attributed to passes."""
     def __init__(self, log):
         FakeOptions.__init__(self)
         self.log = log
-        self._mood = SupervisorStates.RUNNING
 
-    @property
-    def mood(self):
-        self.log.append(('moodread',))
-        return self._mood
-
-    @mood.setter
-    def mood(self, v):
-        self._mood = v
+    def get_socket_map(self):
+        return MarkingSocketMap(self.log)
 
 
 def run_sup_ops(ops):
@@ -395,7 +400,7 @@ def run_sup_ops(ops):
                 try:
                     sup.runforever()
                 except ScriptEnd:
-                    pass
+                    log.append(('scriptend',))
                 except supervisord.asyncore.ExitNow:
                     pass
     finally:
@@ -403,42 +408,47 @@ def run_sup_ops(ops):
 
     # attribute the events to the operations, by position in the log
     out = []
-    cur = None          # events of the op being collected
-    res = None
-    in_rf = False
-    seen_mood_in_pass = False
+    cur = []
+    tops = 0
+    nscripted = len([o for o in ops if o[0] == 'pass'])
+    where = 'pre'       # pre | op | entry | pass | polled
+    back = None
     for ent in log:
         k = ent[0]
-        if k == 'op':
-            if cur is not None and in_rf:
-                out.append((res, render_events(cur)))
-            cur, res = [], None
+        if k == 'event':
+            if where in ('pre', 'polled'):
+                raise AssertionError('notification outside any operation: %r' % (ent[1],))
+            cur.append(ent[1])
+        elif k == 'op':
+            if where not in ('pre', 'polled'):
+                raise AssertionError('log shape')
+            back, where, cur = where, 'op', []
         elif k == 'opend':
             out.append((ent[1], render_events(cur)))
-            cur = [] if in_rf else None
-            res = 'after-op'
+            where, cur = back, []
         elif k == 'rf':
-            in_rf = True
-            cur, res = [], None
-            seen_mood_in_pass = False
-        elif k == 'moodread' and in_rf:
-            if res == 'pass-open':
-                continue        # second read of the same pass (after tick())
-            if res == 'after-op' or res == 'polled':
-                if cur:
-                    raise AssertionError('notification outside any operation')
-            else:
-                out.append((None, render_events(cur)))   # runforever entry, before the first pass
-            cur, res = [], 'pass-open'
+            where, cur = 'entry', []
+        elif k == 'top':
+            if where == 'entry':
+                out.append((None, render_events(cur)))
+            elif where != 'polled':
+                raise AssertionError('log shape: top of pass while %s' % where)
+            where, cur = 'pass', []
+            tops += 1
         elif k == 'poll':
-            out.append((None, render_events(cur)))       # the pass up to its poll()
-            cur, res = [], 'polled'
-        elif k == 'event':
-            if cur is None:
-                raise AssertionError('notification outside any operation')
-            cur.append(ent[1])
-    if in_rf and res == 'pass-open':
-        out.append((None, render_events(cur)))           # pass that ended with ExitNow
-    elif in_rf and res is None:
-        out.append((None, render_events(cur)))           # runforever with no pass at all
+            if where != 'pass':
+                raise AssertionError('log shape: poll while %s' % where)
+            out.append((None, render_events(cur)))
+            where, cur = 'polled', []
+        elif k == 'scriptend':
+            # the script ran out inside the poll() of one more, unscripted pass
+            if where != 'pass' or cur:
+                raise AssertionError('log shape at the end of the script')
+            where = 'end'
+    if where == 'pass' and tops > nscripted:
+        # one more, unscripted pass began after the script was used up (and ended with ExitNow)
+        if cur:
+            raise AssertionError('log shape at the end of the script')
+    elif where in ('entry', 'pass'):
+        out.append((None, render_events(cur)))    # ended by ExitNow (or no pass at all)
     return out
